@@ -198,9 +198,9 @@ func c18Fonts(thorough bool) []*c18Font {
 	c18Once.Do(func() {
 		add := func(name string, f *sfnt.Font) {
 			buf := &bytes.Buffer{}
-			n, err := f.Write(buf)
-			if err != nil || int(n) != buf.Len() {
-				explore.Fatal("C18 corpus: cannot write %s: n=%d len=%d err=%v", name, n, buf.Len(), err)
+			_, err := f.Write(buf) // (the count reported here is judged by the part itself)
+			if err != nil {
+				explore.Fatal("C18 corpus: cannot write %s: len=%d err=%v", name, buf.Len(), err)
 			}
 			c18Corpus = append(c18Corpus, &c18Font{name: name, font: f, file: buf.Bytes(), end: tableEnd(buf.Bytes())})
 		}
